@@ -357,11 +357,14 @@ pub struct CapW {
     pub budget: Option<usize>,
     pub budget_hit: bool,
     pub write_calls: usize,
+    /// with `short`: every few calls fail with `ErrorKind::Interrupted` before anything is taken
+    pub interrupts: bool,
+    pub interrupted: usize,
 }
 
 impl CapW {
     pub fn new() -> CapW {
-        CapW { bytes: vec![], styles: vec![], short: None, budget: None, budget_hit: false, write_calls: 0 }
+        CapW { bytes: vec![], styles: vec![], short: None, budget: None, budget_hit: false, write_calls: 0, interrupts: false, interrupted: 0 }
     }
     pub fn short(seed: u64) -> CapW {
         let mut w = CapW::new();
@@ -406,6 +409,14 @@ impl io::Write for CapW {
             if self.bytes.len() + buf.len() > b {
                 self.budget_hit = true;
                 return Err(io::Error::new(io::ErrorKind::Other, "l4v sink budget exceeded"));
+            }
+        }
+        if self.interrupts {
+            if let Some(r) = &mut self.short {
+                if r.chance(1, 4) {
+                    self.interrupted += 1;
+                    return Err(io::Error::new(io::ErrorKind::Interrupted, "l4v sink: EINTR"));
+                }
             }
         }
         let n = match &mut self.short {
